@@ -33,7 +33,9 @@ CONSTANTS
   DEV_AccUnknownTmpNoReturn,  \* session.go acc(): unknown tmpscheme replies 401, falls through, calls Authenticate on a nil handler
   DEV_NoteCallBadTopicPanics, \* session.go note(): types.GetTopicCat on an unvalidated topic name (session goroutine)
   DEV_DelTopicBadNamePanics,  \* hub.go topicUnreg(): topicCat on an unvalidated topic name (HUB goroutine)
-  DEV_LeaveOboSilent          \* topic.go handleLeaveRequest(): no reply when the session is attached as another user than asUid
+  DEV_LeaveOboSilent,         \* topic.go handleLeaveRequest(): no reply when the session is attached as another user than asUid
+  TrackTok                    \* BOOLEAN: model the token handed out in params.token of login replies (needed by {login token=prev});
+                              \* FALSE only shrinks the state space of the design check over the message universe without prev/conn
 
 \* ------------------------------------------------------------------ abstract client messages
 Blank == [k |-> "-", v |-> "-", sch |-> "-", sec |-> "-", usr |-> "-", lg |-> "-", tmp |-> "-", st |-> "-",
@@ -43,10 +45,13 @@ MLogin(sch, sc) == [Blank EXCEPT !.k = "login", !.sch = sch, !.sec = sc]
 MAcc(usr, lg, sch, tmp, st, o) ==
   [Blank EXCEPT !.k = "acc", !.usr = usr, !.lg = lg, !.sch = sch, !.tmp = tmp, !.st = st, !.o = o]
 MTop(k, t, w, o) == [Blank EXCEPT !.k = k, !.t = t, !.w = w, !.o = o]
+\* the client drops the connection and opens a fresh one (handshake {hi ver="0.22"} included); it remembers the last token it was given
+MConn == [Blank EXCEPT !.k = "conn"]
 
 HiVers    == {"A", "B", "old", "bad", "empty"}                \* "0.22", "0.23", "0.15", "xyz", ""
 BasicSecs == {"right", "rightroot", "wrong", "expired", "suspended", "deleted", "needscred", "nouser", "malformed"}
-TokenSecs == {"right", "rightroot", "wrong", "expired", "suspended", "deleted", "nologin", "needscred", "malformed"}
+TokenSecs == {"right", "rightroot", "wrong", "expired", "suspended", "deleted", "nologin", "needscred", "malformed", "prev"}
+   \* prev = the token in params.token of the most recent reply to this client that carried one (nothing pre-made)
 ResetSecs == {"known", "unknown", "malformed", "unsupported"}
 OboClasses == {"none", "valid", "validroot", "bad", "lvl"}   \* lvl = extra.authlevel="root" without extra.obo
 TopicClasses == {"me", "fnd", "grp", "nogrp", "usr", "nousr", "sys", "empty", "bad", "bad3", "bad6", "new"}
@@ -61,7 +66,7 @@ TopicKinds == {"sub", "leave", "pub", "get", "set", "del", "note"}
 AllMsgs ==
   {MHi(v) : v \in HiVers}
   \cup {MLogin("basic", s) : s \in BasicSecs} \cup {MLogin("token", s) : s \in TokenSecs}
-  \cup {MLogin("reset", s) : s \in ResetSecs} \cup {MLogin("unknown", "x")}
+  \cup {MLogin("reset", s) : s \in ResetSecs} \cup {MLogin("unknown", "x")} \cup {MConn}
   \cup {MAcc("new", lg, sch, "none", st, o) : lg \in {"T", "F"}, sch \in {"basic", "basicR", "dup", "malformed", "unknown", "none"},
                                             st \in {"T", "F"}, o \in {"none", "lvl"}}
   \cup {MAcc(u, "F", sch, tmp, st, "none") : u \in {"self", "other", "bad"}, sch \in {"basic", "none"},
@@ -95,7 +100,13 @@ Tok(sc) == CASE sc = "right"     -> [u |-> "alice", l |-> "auth", validated |-> 
 \* ver: "0" (no handshake) | "A" | "B";  uid: "" | "alice" | "root" | "new";  lvl: "" | "auth" | "root"
 \* att: set of [t |-> abstract topic, u |-> the user the session attached as];  crashed: the server process is gone
 \* rst: a password-reset code for carol's credential has been issued (the `code` authenticator refuses a second one: 409)
-InitSt == [ver |-> "0", uid |-> "", lvl |-> "", att |-> {}, rst |-> FALSE, crashed |-> FALSE]
+\* tok: the last token handed out to this client in a reply (params.token of onLogin): whose, at which level, with which features
+\*      (validated = feature V, nologin = feature L), cred = that account has its required credential validated, code = the reply
+\*      it came with (300 'validate credentials' | 200); code 0 = none yet
+NoTok == [u |-> "", l |-> "", validated |-> FALSE, nologin |-> FALSE, cred |-> FALSE, code |-> 0]
+InitSt == [ver |-> "0", uid |-> "", lvl |-> "", att |-> {}, rst |-> FALSE, tok |-> NoTok, crashed |-> FALSE]
+Issue(st, u, l, validated, nologin, cred, code) ==
+  IF TrackTok THEN [st EXCEPT !.tok = [u |-> u, l |-> l, validated |-> validated, nologin |-> nologin, cred |-> cred, code |-> code]] ELSE st
 AttTopics(st) == {a.t : a \in st.att}
 AttAs(st, r) == CHOOSE a \in st.att : a.t = r
 
@@ -139,7 +150,14 @@ AuthToken(sc) ==
   ELSE IF Tok(sc).expired THEN AuthFail(401)
   ELSE [ok |-> TRUE, code |-> 0, u |-> Tok(sc).u, l |-> Tok(sc).l, validated |-> Tok(sc).validated, nologin |-> Tok(sc).nologin]
 
-NeedsCred(u, l, validated) == ~validated /\ Validators /\ l = "auth" /\ ~Acct[u].cred
+AcctState(u) == IF u \in DOMAIN Acct THEN Acct[u].state ELSE "ok"
+AcctCred(u)  == IF u \in DOMAIN Acct THEN Acct[u].cred ELSE FALSE
+\* the token the previous reply handed out: signed by the server, not expired; its features are what onLogin put into it
+AuthPrev(st) ==
+  IF st.tok.code = 0 THEN AuthFail(400)                            \* the client has no token: it sends a malformed one
+  ELSE [ok |-> TRUE, code |-> 0, u |-> st.tok.u, l |-> st.tok.l, validated |-> st.tok.validated, nologin |-> st.tok.nologin]
+
+NeedsCred(l, validated, cred) == ~validated /\ Validators /\ l = "auth" /\ ~cred
 
 Login(st, m) ==
   IF m.sch = "reset"
@@ -150,13 +168,18 @@ Login(st, m) ==
          [] OTHER                 -> {Out(Rep(301, TRUE), [st EXCEPT !.rst = TRUE])}   \* InfoAuthReset; the SESSION never changes
   ELSE IF st.uid # "" THEN Err(409, st)                            \* already authenticated
   ELSE IF m.sch = "unknown" THEN Err(401, st)
-  ELSE LET rec == IF m.sch = "basic" THEN AuthBasic(m.sec) ELSE AuthToken(m.sec) IN
+  ELSE LET rec  == IF m.sch = "basic" THEN AuthBasic(m.sec) ELSE IF m.sec = "prev" THEN AuthPrev(st) ELSE AuthToken(m.sec)
+           cred == IF m.sec = "prev" THEN st.tok.cred ELSE AcctCred(rec.u) IN
     IF ~rec.ok THEN Err(rec.code, st)
-    ELSE IF Acct[rec.u].state = "del" THEN Err(404, st)
-    ELSE IF Acct[rec.u].state # "ok" THEN Err(403, st)
-    ELSE IF NeedsCred(rec.u, rec.l, rec.validated) THEN Err(300, st)   \* InfoValidateCredentials: NOT authenticated
-    ELSE IF rec.nologin THEN Err(200, st)                          \* token not suitable for session authentication
-    ELSE {Out(Rep(200, TRUE), [st EXCEPT !.uid = rec.u, !.lvl = rec.l])}
+    ELSE IF AcctState(rec.u) = "del" THEN Err(404, st)
+    ELSE IF AcctState(rec.u) # "ok" THEN Err(403, st)
+    \* onLogin (session.go:1041-1092) ALWAYS puts a token into the reply: with the incoming features when credentials are
+    \* missing (300), with feature V added otherwise (200); feature L (no-login) is kept
+    ELSE IF NeedsCred(rec.l, rec.validated, cred)                  \* InfoValidateCredentials: NOT authenticated
+      THEN {Out(Rep(300, TRUE), Issue(st, rec.u, rec.l, FALSE, rec.nologin, cred, 300))}
+    ELSE IF rec.nologin                                            \* token not suitable for session authentication
+      THEN {Out(Rep(200, TRUE), Issue(st, rec.u, rec.l, TRUE, TRUE, cred, 200))}
+    ELSE {Out(Rep(200, TRUE), Issue([st EXCEPT !.uid = rec.u, !.lvl = rec.l], rec.u, rec.l, TRUE, FALSE, cred, 200))}
 
 \* ------------------------------------------------------------------ acc (session.go:870-906, user.go:24-266)
 CreateUser(st, m, as) ==
@@ -166,8 +189,9 @@ CreateUser(st, m, as) ==
   ELSE IF m.sch = "dup" THEN Err(409, st)
   ELSE IF m.st = "T" /\ as.l # "root" THEN Err(403, st)           \* account state may be assigned by root only
   ELSE IF m.lg = "F" THEN Err(201, st)
-  ELSE IF Validators /\ m.sch = "basic" THEN Err(300, st)          \* credential not validated yet: NOT authenticated
-  ELSE {Out(Rep(200, TRUE), [st EXCEPT !.uid = "new", !.lvl = "auth"])}
+  ELSE IF Validators /\ m.sch = "basic"                            \* credential not validated yet: NOT authenticated
+    THEN {Out(Rep(300, TRUE), Issue(st, "new", "auth", FALSE, FALSE, FALSE, 300))}
+  ELSE {Out(Rep(200, TRUE), Issue([st EXCEPT !.uid = "new", !.lvl = "auth"], "new", "auth", TRUE, FALSE, m.sch = "basicR", 200))}
 
 UpdateUser(st, m, as, recU) ==      \* recU = user from temporary authentication, "" = none
   IF st.uid = "" /\ recU = "" THEN Err(403, st)
@@ -288,7 +312,8 @@ Note(st, m, as) ==
 \* ------------------------------------------------------------------ dispatch (session.go:465-614)
 Dispatch(st, m) ==
   LET as == Resolve(st, m) IN
-  IF ~as.ok THEN {Out(Rep(as.code, FALSE), st)}
+  IF m.k = "conn" THEN {Out(Rep(201, TRUE), [InitSt EXCEPT !.ver = "A", !.tok = st.tok, !.rst = st.rst])}
+  ELSE IF ~as.ok THEN {Out(Rep(as.code, FALSE), st)}
   ELSE IF m.k = "hi" THEN Hello(st, m)
   ELSE IF m.k = "note" THEN Note(st, m, as)
   ELSE IF st.ver = "0" THEN Err(409, st)                                     \* checkVers: {hi} is missing
@@ -311,22 +336,28 @@ Demand(st, m) ==
   ELSE IF \A o \in Dispatch(st, m) : o.rep.code \notin {0, 1, 2} /\ (o.rep.code = 3 \/ o.rep.code >= 300) THEN "err"
   ELSE "reply"
 \* the reply is produced by the request's handler (so it must echo the id) unless it is produced before the message kind is looked at
-HandlerStage(st, m) == Resolve(st, m).ok /\ m.k # "note"
+HandlerStage(st, m) == Resolve(st, m).ok /\ m.k \notin {"note", "conn"}
 
 \* ------------------------------------------------------------------ the C11 clauses as predicates over ONE observed step
 \* pre / post: [ver, uid, lvl, att] with att = SET of abstract topic names;  codes: set of reply codes received ({} = silence);
 \* dlv: set of [from, sender] delivered to the reader of g1.  Used on model transitions (U1) and on real observations (binding).
 Proj(st) == [ver |-> st.ver, uid |-> st.uid, lvl |-> st.lvl, att |-> AttTopics(st)]
 Refused(m, codes) == IF m.k = "note" THEN \A c \in codes : c >= 400 ELSE codes # {} /\ \A c \in codes : c >= 400
-FailingLogin(m) == m.k = "login" /\ (m.sch \in {"unknown", "reset"}
+\* ptk = [code, u, l]: the reply (300 | 200, 0 = none) with which the client's previous token was handed out, and to whom
+NoPtk == [code |-> 0, u |-> "", l |-> ""]
+PtkOf(tok) == [code |-> tok.code, u |-> tok.u, l |-> tok.l]
+FailingLogin(m, ptk) == m.k = "login" /\ (m.sch \in {"unknown", "reset"}
                      \/ m.sec \in {"wrong", "expired", "suspended", "deleted", "nologin", "malformed", "nouser"}
-                     \/ (m.sec = "needscred" /\ Validators))
-Grants(m) == IF m.k = "login" /\ m.sec = "right" THEN <<"alice", "auth">>
+                     \/ (m.sec = "needscred" /\ Validators)
+                     \/ (m.sec = "prev" /\ ptk.code # 200))   \* no token, or one handed out with 'validate credentials'
+Grants(m, ptk) == IF m.k = "login" /\ m.sec = "prev" THEN (IF ptk.code = 200 THEN <<ptk.u, ptk.l>> ELSE <<"", "">>)
+             ELSE IF m.k = "login" /\ m.sec = "right" THEN <<"alice", "auth">>
              ELSE IF m.k = "login" /\ m.sec = "rightroot" THEN <<"root", "root">>
              ELSE IF m.k = "acc" /\ m.usr = "new" /\ m.lg = "T" THEN <<"new", "auth">> ELSE <<"", "">>
 OwnTopics(u, l) == {"me:" \o u, "fnd:" \o u, "g1", "newgrp", P2PName(u)} \cup (IF l = "root" THEN {"sys"} ELSE {})
 
-Violated(pre, m, codes, post, dlv) ==
+Violated(pre, m, codes, post, dlv, ptk) ==
+  IF m.k = "conn" THEN {} ELSE     \* a new connection is a new session: the clauses speak about one session
   (IF pre.ver = "0" /\ m.k # "hi" /\ ~(Refused(m, codes) /\ post = pre /\ dlv = {}) THEN {"PreHiRefused"} ELSE {})
   \cup (IF pre.uid = "" /\ m.k \notin {"hi", "acc", "login"} /\ ~(Refused(m, codes) /\ post = pre /\ dlv = {})
         THEN {"PreLoginRefused"} ELSE {})
@@ -334,9 +365,9 @@ Violated(pre, m, codes, post, dlv) ==
                              /\ ((m.k = "login" /\ m.sch # "reset") \/ (m.k = "acc" /\ m.lg = "T") => \A c \in codes : c >= 300))
         THEN {"LoginAtMostOnce"} ELSE {})
   \cup (IF pre.uid = "" /\ ~( \/ (post.uid = "" /\ post.lvl = "")
-                             \/ (<<post.uid, post.lvl>> = Grants(m) /\ ~FailingLogin(m)) )
+                             \/ (<<post.uid, post.lvl>> = Grants(m, ptk) /\ ~FailingLogin(m, ptk)) )
         THEN {"FailedLoginGrantsNothing"} ELSE {})
-  \cup (IF FailingLogin(m) /\ ~(post.uid = pre.uid /\ post.lvl = pre.lvl) THEN {"FailedLoginGrantsNothing"} ELSE {})
+  \cup (IF FailingLogin(m, ptk) /\ ~(post.uid = pre.uid /\ post.lvl = pre.lvl) THEN {"FailedLoginGrantsNothing"} ELSE {})
   \cup (IF m.o \in {"none", "lvl"} /\ ~( /\ \A d \in dlv : d.from = pre.uid
                                         /\ (post.att \ pre.att) \subseteq OwnTopics(pre.uid, pre.lvl)
                                         /\ (m.k = "acc" /\ m.st = "T" /\ pre.lvl # "root" => \A c \in codes : c >= 300) )
